@@ -22,7 +22,8 @@ type FragReader struct {
 	// ZeroAt >= 0: the first Read call that starts at this offset returns
 	// (0, nil) - "nothing happened", which the io.Reader contract allows and
 	// callers must not take for end of file; ZeroEvery: every other call does.
-	ZeroAt      int // offset+1; 0 = never
+	Half        bool // every call delivers half of what was asked for (rounded up), as iotest.HalfReader does
+	ZeroAt      int  // offset+1; 0 = never
 	ZeroEvery   bool
 	zeroDone    bool
 	Zeros       int
@@ -61,6 +62,9 @@ func (f *FragReader) Read(p []byte) (int, error) {
 	}
 	if n > len(p) {
 		n = len(p)
+	}
+	if f.Half && n > (len(p)+1)/2 {
+		n = (len(p) + 1) / 2
 	}
 	if n < len(p) && f.pos+n < len(f.Data) {
 		f.SplitFields++
